@@ -116,6 +116,11 @@ class InitSegment(DashElement):
         if moov is None:
             self.elt.add_error('Failed to find moov box')
             return False
+        for name in ['mvhd', 'trak', 'mvex']:
+            if moov.find_child(name) is None:
+                self.elt.add_error(
+                    f'Failed to find mandatory {name} box in moov box of init segment')
+                return False
         key_ids = set()
         self.dash_rep = DashRepresentation()
         self.dash_rep.process_moov(moov, key_ids)
